@@ -245,19 +245,29 @@ def flat_dtypes(prog, R):
         rec = [c for c in f.walk() if is_call(c) and (callee(c) or "").endswith("::addFlatDtypes") and call_args(c) and decl_of(call_args(c)[0]) == vec]
         leaf = f.q == "occa::dtype_t::addFlatDtypes"
         bad = []
+        scratch_inserts = []
         for m in muts:
             short = callee(m).split("::")[-1]
-            if short == "size" or short == "empty":
+            if short in ("size", "empty", "begin", "end", "cbegin", "cend"):
                 continue
             if leaf and short == "push_back" and "self" in noid(render(call_args(m)[0], False)):
                 continue
+            if short == "insert" and len(call_args(m)) == 3:
+                # range insert of a scratch vector that was itself filled by the recursive flattening
+                srcs = {decl_of(call_object(x)) for a in call_args(m)[1:] for x in walk(a) if is_call(x) and (callee(x) or "").split("::")[-1] in ("begin", "end", "cbegin", "cend") and call_object(x) is not None}
+                srcs.discard(vec)
+                filled = {decl_of(call_args(c)[0]) for c in f.walk() if is_call(c) and (callee(c) or "").endswith("::addFlatDtypes") and call_args(c)}
+                if len(srcs) == 1 and srcs <= filled:
+                    scratch_inserts.append(m)
+                    continue
             bad.append(m)
         R.ob("C10-R6", not bad, f.q, "flatten:the vector is extended only by recursive flattening (leaf: push_back(&self))", f.site(bad[0]) if bad else "%s:%d" % (f.relfile, f.d["line"]),
              "%d recursive call(s)" % len(rec) if not bad else
              "the flat vector is edited directly (%s): a component whose own flattening has more than one entry (float2 a[3], float a[2][3]) gets the wrong flattened length, and setupRun accepts / rejects the wrong argument lists" % callee(bad[0]).split("::")[-1])
         if not leaf:
             loops = [n for n in f.walk() if n["k"] in ("ForStmt", "WhileStmt", "CXXForRangeStmt") and not n.get("mac")]
-            inloop = bool(rec) and all(any(any(x["i"] == c["i"] for x in walk(l)) for l in loops) for c in rec)
+            per_entry = scratch_inserts if scratch_inserts else rec
+            inloop = bool(per_entry) and all(any(any(x["i"] == c["i"] for x in walk(l)) for l in loops) for c in per_entry)
             bound = ""
             if loops and loops[0]["k"] == "ForStmt":
                 bound = noid(render(kids(loops[0])[2] if len(kids(loops[0])) > 2 else loops[0], False))
